@@ -5066,7 +5066,7 @@ def single_shortest_paths(start_node, weights):
 
     n = weights.shape[0]
     predecessors = np.ones(n, int) * start_node
-    path_cost = weights[start_node, :]
+    path_cost = weights[start_node, :].copy()
     to_do = np.delete(np.arange(n), start_node)
     while to_do.shape[0] > 0:
         best_node_idx = np.argmin(path_cost[to_do])
